@@ -277,7 +277,8 @@ func (c *RollingFileAppender) clearExpiredFiles() {
 		if entry.IsDir() {
 			continue
 		}
-		if !strings.HasPrefix(entry.Name(), c.FileName+".") {
+		suffix, ok := strings.CutPrefix(entry.Name(), c.FileName+".")
+		if !ok || !isRotationSuffix(suffix) {
 			continue
 		}
 		info, err := entry.Info()
@@ -289,4 +290,18 @@ func (c *RollingFileAppender) clearExpiredFiles() {
 			_ = os.Remove(filePath)
 		}
 	}
+}
+
+// isRotationSuffix reports whether s is a timestamp as produced by TimeRotation.Format,
+// i.e. whether a file named FileName+"."+s can be one of this appender's own files.
+func isRotationSuffix(s string) bool {
+	if len(s) != len("20060102150405") {
+		return false
+	}
+	for i := 0; i < len(s); i++ {
+		if s[i] < '0' || s[i] > '9' {
+			return false
+		}
+	}
+	return true
 }
